@@ -124,6 +124,33 @@ theorem runBlocks_spec (rate : Dec) (hr : 0 ≤ rate.m) :
       have k1 := c6 hu.1
       have k2 := i6 hu.2
       rw [hsplit, hadd]; simp only [P_val] at *; omega
+/-- piecewise-constant rate: paid + carried-out error ≤ carried-in error + Σ rate_b·Δt_b, every payout
+    is non-negative and at most `rate_b·Δt_b + carried error`, i.e. nothing is paid for earlier time -/
+theorem runBlocksR_spec : ∀ (bs : List (Int × Int × Dec)) (t0 : Int) (e0 : Dec), 0 ≤ e0.m → e0.m < P →
+    okBlocksR t0 bs →
+    0 ≤ (runBlocksR t0 e0 bs).2.2.m ∧ (runBlocksR t0 e0 bs).2.2.m < P ∧
+    1000000000 * (sumL (runBlocksR t0 e0 bs).1 * P + (runBlocksR t0 e0 bs).2.2.m - e0.m) ≤ rateTime t0 bs := by
+  intro bs
+  induction bs with
+  | nil =>
+    intro t0 e0 h0 h1 _
+    simp only [runBlocksR, rateTime, sumL]
+    refine ⟨h0, h1, ?_⟩; omega
+  | cons b bs ih =>
+    obtain ⟨now, pool, rate⟩ := b
+    intro t0 e0 h0 h1 hs
+    obtain ⟨hs1, hs2, hs3, hs4⟩ := hs
+    obtain ⟨c1, c2, c3, c4, c5, -⟩ := calc_step now t0 e0 rate pool hs1 hs3 h0 h1 hs2 _ rfl
+    obtain ⟨i1, i2, i3⟩ := ih now (calculateStakingRewards now t0 e0 rate (Dec.ofInt pool)).2 c1 c2 hs4
+    simp only [runBlocksR, rateTime, sumL]
+    generalize calculateStakingRewards now t0 e0 rate (Dec.ofInt pool) = r at *
+    generalize runBlocksR now r.2 bs = rest at *
+    generalize rate.m * (now - t0) = A at *
+    generalize rateTime now bs = B at *
+    have hadd : (r.1 + sumL rest.1) * P = r.1 * P + sumL rest.1 * P := Int.add_mul ..
+    refine ⟨i1, i2, ?_⟩
+    rw [hadd]; simp only [P_val] at *; omega
+
 theorem order3_val : order3 = ["community", "mint", "kavadist"] := by decide
 
 theorem disable_none (now : Int) (p : CommParams) (x : Infl) (h : p.upgradeTime = none) :
